@@ -338,7 +338,7 @@ func cmdCheck(args []string) int {
 			dir := filepath.Join(verifDir, "replays", *prop, fmt.Sprintf("%s-%d", h.Name, i))
 			confirmed, out := true, "replay skipped"
 			if !*noReplay {
-				confirmed, out = replayNative(dir, h, cex, files)
+				confirmed, out = replayNative(dir, h, cex, files, c.Params)
 			}
 			if *verbose {
 				fmt.Fprintf(os.Stderr, "cex %s: confirmed=%v\n%s\n", fp, confirmed, out)
@@ -429,7 +429,7 @@ func matchKnown(k []KnownFinding, prop, fp string) *KnownFinding {
 
 // replayNative runs the harness natively with the model values and reports
 // whether the same failure reproduces against the real build.
-func replayNative(dir string, h HarnessEntry, cex *Counterexample, files map[string]string) (bool, string) {
+func replayNative(dir string, h HarnessEntry, cex *Counterexample, files map[string]string, params map[string]int) (bool, string) {
 	os.RemoveAll(dir)
 	os.MkdirAll(dir, 0755)
 	vals := map[string]any{"values": cex.Values, "label": cex.Label, "kind": cex.Kind, "detail": cex.Detail, "harness": h.Name, "func": h.Func, "trace": cex.Trace}
@@ -476,7 +476,11 @@ func replayNative(dir string, h HarnessEntry, cex *Counterexample, files map[str
 		// the Go race detector applies the same happens-before criterion to the real execution
 		extra = "-race -count=10 "
 	}
-	script := fmt.Sprintf("#!/bin/sh\n# replays the counterexample against the real build of /repo\ncd /repo && GOFLAGS=-mod=mod GOPROXY=off GOSUMDB=off GOTOOLCHAIN=local VERIF_VALUES=%s timeout 300 go test -tags verif -vet=off %s-overlay %s -run '^TestVerifReplay$' -v %s\n",
+	penv := ""
+	for k, v := range params {
+		penv += fmt.Sprintf("VERIF_PARAM_%s=%d ", k, v)
+	}
+	script := fmt.Sprintf("#!/bin/sh\n# replays the counterexample against the real build of /repo\ncd /repo && "+penv+"GOFLAGS=-mod=mod GOPROXY=off GOSUMDB=off GOTOOLCHAIN=local VERIF_VALUES=%s timeout 300 go test -tags verif -vet=off %s-overlay %s -run '^TestVerifReplay$' -v %s\n",
 		filepath.Join(dir, "values.json"), extra, ovFile, pkgArg)
 	os.WriteFile(filepath.Join(dir, "run.sh"), []byte(script), 0755)
 	cmd := exec.Command("/bin/sh", filepath.Join(dir, "run.sh"))
